@@ -216,6 +216,11 @@ def xy_tables(gappy=False):
     idx = pd.bdate_range("2022-01-03", periods=14)
     X = pd.DataFrame({"f1": np.linspace(0.1, 1.4, 14) ** 2, "f2": np.cos(np.arange(14))}, index=idx)
     Y = pd.DataFrame({"a": 100 + np.arange(14) * 1.5 + np.sin(np.arange(14)), "b": 50 - np.arange(14) * 0.5}, index=idx)
+    if gappy == "eod":
+        # end-of-day feature snapshots: X is stamped 16:00 of each day, the price table (and so every timestep) at midnight;
+        # the row of day d exists only AFTER the step landing on d
+        X.index = X.index + pd.Timedelta(hours=16)
+        return X, Y, idx
     if gappy:
         # low-frequency feature (observed every third row), an isolated NaN, a row missing from X altogether and
         # a NaN price: whatever fills these gaps must not look at later rows
@@ -269,7 +274,7 @@ def xy_cases(tier):
         for window in ((1, 2) if tier == "quick" else (1, 2, 3)):
             for te in ((5,) if tier == "quick" else (4, 6)):
                 for cut in range(te, 12, 2 if tier == "quick" else 1):     # incl. the cut AT the fit date
-                    for gappy in (False, True):
+                    for gappy in (False, True, "eod"):
                         out.append((transformer, window, te, cut, gappy))
     return out
 
@@ -293,6 +298,9 @@ def apply_pattern(X, Y, idx, cut, pat):
     import pandas as pd
     X2, Y2 = X.copy(), Y.copy()
     xrow = lambda row: X2.index.get_indexer([idx[row]])[0]
+    if len(X2) and X2.index[0] != X2.index[0].normalize():
+        # end-of-day stamps: the feature row of day `cut` itself (16:00) is already dated after the step landing on idx[cut]
+        xrow = lambda row: X2.index.get_indexer([idx[row - 1] + pd.Timedelta(hours=16)])[0]
     if pat == "append":
         extra = pd.bdate_range(idx[-1] + pd.Timedelta(days=1), periods=2)
         X2 = pd.concat([X2, pd.DataFrame({"f1": [9.0, -9.0], "f2": [3.0, 4.0]}, index=extra)])
